@@ -1079,18 +1079,37 @@ API_DELEGATIONS = [
 ]
 
 
-def api_delegations(R, ctx, rid):
+UNDO_DELEGATIONS = [
+    ("yrs::undo::UndoManager::undo_blocking", r"UndoManager::pop_blocking$", {1: "1"}, None),
+    ("yrs::undo::UndoManager::redo_blocking", r"UndoManager::pop_blocking$", {1: "0"}, None),
+    ("yrs::undo::UndoManager::can_undo", r"::is_empty$", {0: ("has", ".undo_stack")}, None),
+    ("yrs::undo::UndoManager::can_redo", r"::is_empty$", {0: ("has", ".redo_stack")}, None),
+    ("yrs::undo::UndoManager::include_origin", r"HashSet::insert$", {0: ("has", ".options.tracked_origins"), 1: "Into::into(origin)"}, None),
+    ("yrs::undo::UndoManager::exclude_origin", r"HashSet::remove$", {0: ("has", ".options.tracked_origins"), 1: "Into::into(origin)"}, None),
+    ("yrs::undo::UndoManager::clear_all", r"UndoManager::clear_internal$", {0: "self", 1: "1", 2: "1"}, None),
+]
+
+
+def api_delegations(R, ctx, rid, table=None, what=None):
     """R-PROV the public methods of the shared types hand their own arguments on."""
     from .accessors import _canon
     Y = ctx.yrs
+    if table is not None:
+        R.rule(rid, what)
+        return _delegations(R, Y, rid, table, len(table) - 1)
     R.rule(rid, "R-PROV the methods of Array / Map / Text / XmlFragment / XML attributes are thin: each reaches its worker (BlockIter "
                 "walk, find_position, create_item, Branch::get / remove / insert_at, or a sibling method) exactly once, with the "
                 "caller's own index / length / key / value in the worker's slots — values rebuilt from MIR and rendered canonically, "
                 "so named temporaries do not matter; push_back is insert at len(), push_front insert at 0, remove(i) is "
                 "remove_range(i, 1); the positional effect (insert_contents / delete / read_value) runs only where try_forward "
                 "answered true. An index shifted by one, the wrong length, the other parameter in a slot are all value changes here")
+    return _delegations(R, Y, rid, API_DELEGATIONS, 30)
+
+
+def _delegations(R, Y, rid, table, floor):
+    from .accessors import _canon
     n = 0
-    for path, callee, want, guard in API_DELEGATIONS:
+    for path, callee, want, guard in table:
         fn = Y.fn(path)
         v = FnView(fn)
         css = fn.calls_to("re:" + callee)
@@ -1113,7 +1132,7 @@ def api_delegations(R, ctx, rid):
             if not okg:
                 bad.append("not under %s() == true" % guard)
         R.ob(rid, fn, site, not bad, "hands on its own arguments" if not bad else "; ".join(bad), cs.loc())
-    R.floor(rid, "delegations checked", n, 30)
+    R.floor(rid, "delegations checked", n, floor)
 
 
 def map_try_update(R, ctx, rid):
